@@ -16,6 +16,7 @@ import (
 	"github.com/polynetwork/poly/native/service/governance/node_manager"
 	"github.com/polynetwork/poly/native/service/governance/relayer_manager"
 	"github.com/polynetwork/poly/native/service/governance/side_chain_manager"
+	"github.com/polynetwork/poly/native/service/governance/signature_manager"
 	"github.com/polynetwork/poly/native/service/utils"
 
 	"polysim/chain"
@@ -165,27 +166,27 @@ func (s *Sim) BuildTx(st kernel.Step) *types.Transaction {
 	case "regcand":
 		o := s.Actor(a(1))
 		return chain.SignTx(w.NewTx(chain.NodeManager, node_manager.REGISTER_CANDIDATE,
-			chain.Args(&node_manager.RegisterPeerParam{PeerPubkey: chain.PubHex(s.Peer(a(0))), Address: o.Address}), s.nextNonce()), o)
+			chain.Args(&node_manager.RegisterPeerParam{PeerPubkey: chain.PubHex(s.Peer(a(0))), Address: o.Address}), s.nextNonce()), s.signAs(st, o))
 	case "unregcand":
 		o := s.Actor(a(1))
 		return chain.SignTx(w.NewTx(chain.NodeManager, node_manager.UNREGISTER_CANDIDATE,
-			chain.Args(&node_manager.PeerParam{PeerPubkey: chain.PubHex(s.Peer(a(0))), Address: o.Address}), s.nextNonce()), o)
+			chain.Args(&node_manager.PeerParam{PeerPubkey: chain.PubHex(s.Peer(a(0))), Address: o.Address}), s.nextNonce()), s.signAs(st, o))
 	case "approvecand":
 		o := s.Actor(a(1))
 		return chain.SignTx(w.NewTx(chain.NodeManager, node_manager.APPROVE_CANDIDATE,
-			chain.Args(&node_manager.PeerParam{PeerPubkey: chain.PubHex(s.Peer(a(0))), Address: o.Address}), s.nextNonce()), o)
+			chain.Args(&node_manager.PeerParam{PeerPubkey: chain.PubHex(s.Peer(a(0))), Address: o.Address}), s.nextNonce()), s.signAs(st, o))
 	case "blacknode":
 		o := s.Actor(a(1))
 		return chain.SignTx(w.NewTx(chain.NodeManager, node_manager.BLACK_NODE,
-			chain.Args(&node_manager.PeerListParam{PeerPubkeyList: []string{chain.PubHex(s.Peer(a(0)))}, Address: o.Address}), s.nextNonce()), o)
+			chain.Args(&node_manager.PeerListParam{PeerPubkeyList: []string{chain.PubHex(s.Peer(a(0)))}, Address: o.Address}), s.nextNonce()), s.signAs(st, o))
 	case "whitenode":
 		o := s.Actor(a(1))
 		return chain.SignTx(w.NewTx(chain.NodeManager, node_manager.WHITE_NODE,
-			chain.Args(&node_manager.PeerParam{PeerPubkey: chain.PubHex(s.Peer(a(0))), Address: o.Address}), s.nextNonce()), o)
+			chain.Args(&node_manager.PeerParam{PeerPubkey: chain.PubHex(s.Peer(a(0))), Address: o.Address}), s.nextNonce()), s.signAs(st, o))
 	case "quitnode":
 		o := s.Actor(a(1))
 		return chain.SignTx(w.NewTx(chain.NodeManager, node_manager.QUIT_NODE,
-			chain.Args(&node_manager.PeerParam{PeerPubkey: chain.PubHex(s.Peer(a(0))), Address: o.Address}), s.nextNonce()), o)
+			chain.Args(&node_manager.PeerParam{PeerPubkey: chain.PubHex(s.Peer(a(0))), Address: o.Address}), s.nextNonce()), s.signAs(st, o))
 	case "commitdpos":
 		tx := w.NewTx(chain.NodeManager, node_manager.COMMIT_DPOS, nil, s.nextNonce())
 		return s.signPrivileged(tx, a(0), a(1))
@@ -201,34 +202,38 @@ func (s *Sim) BuildTx(st kernel.Step) *types.Transaction {
 		}
 		p := &side_chain_manager.RegisterSideChainParam{Address: o.Address, ChainId: ChainID(a(0)), Router: uint64(a(1)), Name: fmt.Sprintf("chain%d-%d", a(0), a(3)),
 			BlocksToWait: uint64(1 + a(3)%3), CCMCAddress: []byte{0xcc, byte(a(0)), byte(a(3))}, ExtraInfo: []byte{byte(a(3))}}
-		return chain.SignTx(w.NewTx(chain.SideChainManager, m, chain.Args(p), s.nextNonce()), o)
+		return chain.SignTx(w.NewTx(chain.SideChainManager, m, chain.Args(p), s.nextNonce()), s.signAs(st, o))
 	case "approvechain", "approveupd", "approvequit":
 		o := s.Actor(a(1))
 		m := map[string]string{"approvechain": side_chain_manager.APPROVE_REGISTER_SIDE_CHAIN, "approveupd": side_chain_manager.APPROVE_UPDATE_SIDE_CHAIN,
 			"approvequit": side_chain_manager.APPROVE_QUIT_SIDE_CHAIN}[st.Op]
-		return chain.SignTx(w.NewTx(chain.SideChainManager, m, chain.Args(&side_chain_manager.ChainidParam{Chainid: ChainID(a(0)), Address: o.Address}), s.nextNonce()), o)
+		return chain.SignTx(w.NewTx(chain.SideChainManager, m, chain.Args(&side_chain_manager.ChainidParam{Chainid: ChainID(a(0)), Address: o.Address}), s.nextNonce()), s.signAs(st, o))
 	case "quitchain":
 		o := s.User(a(1))
 		return chain.SignTx(w.NewTx(chain.SideChainManager, side_chain_manager.QUIT_SIDE_CHAIN,
-			chain.Args(&side_chain_manager.ChainidParam{Chainid: ChainID(a(0)), Address: o.Address}), s.nextNonce()), o)
+			chain.Args(&side_chain_manager.ChainidParam{Chainid: ChainID(a(0)), Address: o.Address}), s.nextNonce()), s.signAs(st, o))
 	case "regrelayer", "rmrelayer":
 		o := s.Actor(a(1))
 		m := relayer_manager.REGISTER_RELAYER
 		if st.Op == "rmrelayer" {
 			m = relayer_manager.REMOVE_RELAYER
 		}
-		return chain.SignTx(w.NewTx(chain.RelayerManager, m, chain.Args(&relayer_manager.RelayerListParam{AddressList: []common.Address{s.User(a(0)).Address}, Address: o.Address}), s.nextNonce()), o)
+		return chain.SignTx(w.NewTx(chain.RelayerManager, m, chain.Args(&relayer_manager.RelayerListParam{AddressList: []common.Address{s.User(a(0)).Address}, Address: o.Address}), s.nextNonce()), s.signAs(st, o))
 	case "approverelayer", "approvermrelayer":
 		o := s.Actor(a(1))
 		m := relayer_manager.APPROVE_REGISTER_RELAYER
 		if st.Op == "approvermrelayer" {
 			m = relayer_manager.APPROVE_REMOVE_RELAYER
 		}
-		return chain.SignTx(w.NewTx(chain.RelayerManager, m, chain.Args(&relayer_manager.ApproveRelayerParam{ID: uint64(a(0) % 4), Address: o.Address}), s.nextNonce()), o)
+		return chain.SignTx(w.NewTx(chain.RelayerManager, m, chain.Args(&relayer_manager.ApproveRelayerParam{ID: uint64(abs(a(0)) % 4), Address: o.Address}), s.nextNonce()), s.signAs(st, o))
 	case "import": // vote-router import: [src, dst, msg, voter, variant]
 		o := s.Actor(a(3))
 		p := s.ImportParam(a(0), a(1), a(2), a(4), o)
-		return chain.SignTx(w.NewTx(chain.CrossChain, ccom.IMPORT_OUTER_TRANSFER_NAME, chain.Args(p), s.nextNonce()), o)
+		return chain.SignTx(w.NewTx(chain.CrossChain, ccom.IMPORT_OUTER_TRANSFER_NAME, chain.Args(p), s.nextNonce()), s.signAs(st, o))
+	case "addsig": // signature manager: [subject, signer]
+		o := s.Actor(a(1))
+		p := &signature_manager.AddSignatureParam{Address: o.Address, SideChainID: 1, Subject: []byte{0x5b, byte(a(0) % 5)}, Signature: []byte{byte(a(1)), byte(a(0))}}
+		return chain.SignTx(w.NewTx(chain.SigManager, signature_manager.ADD_SIGNATURE, chain.Args(p), s.nextNonce()), s.signAs(st, o))
 	case "blackchain", "whitechain":
 		m := ccom.BLACK_CHAIN
 		if st.Op == "whitechain" {
@@ -239,6 +244,31 @@ func (s *Sim) BuildTx(st kernel.Step) *types.Transaction {
 	}
 	return nil
 }
+
+// signAs returns the account that signs the step's transaction: normally the named address's
+// own key; a step with S = "as:<k>" is signed by actor k instead (witness-forgery attempts).
+func (s *Sim) signAs(st kernel.Step, def *account.Account) *account.Account {
+	var k int64
+	if n, _ := fmt.Sscanf(st.S, "as:%d", &k); n == 1 {
+		return s.Actor(k)
+	}
+	return def
+}
+
+// namedOwner is the address a step names as owner/approver/voter (params.Address).
+func (s *Sim) namedOwner(st kernel.Step) common.Address {
+	switch st.Op {
+	case "regchain", "updchain":
+		return s.User(st.Arg(2)).Address
+	case "quitchain":
+		return s.User(st.Arg(1)).Address
+	case "import":
+		return s.Actor(st.Arg(3)).Address
+	}
+	return s.Actor(st.Arg(1)).Address
+}
+
+func (s *Sim) signerOf(st kernel.Step) (common.Address, bool) { return s.namedOwner(st), true }
 
 // ChainID maps a small plan integer to a side-chain id (1..4).
 func ChainID(i int64) uint64 {
